@@ -63,6 +63,35 @@ CLAIMED = {
             "the model's; exactly one report per raising offer of a non-report, none for reports; report content.",
             "Trusted: FaultyDest/Tap recording, the 40-line fan-out model in props/c08.py.",
             "DESIGN.md 3/C08"),
+    "C10": ("deterministic simulation at the file seam: SimFile call log and a quiescence observer under a seeded "
+            "schedule (write discipline); seeded boundary-value generation across the same seam (value fidelity)",
+            "Seeded exploration. The write-discipline half (single write + flush per message, no partial line "
+            "visible whenever no logging call is in progress, text == binary content) is an I/O-seam property "
+            "decided on SimFile in SEQ and THREADS worlds. The value-fidelity half has no schedule or fault in it: "
+            "it is seeded input generation through the simulator's pipeline -- the assurance of a property-based test.",
+            "Trusted: SimFile, json.loads as the reference decoder, the 30-line table of documented encodings.",
+            "DESIGN.md 3/C10"),
+    "C11": ("deterministic simulation with crash injection: crash points drawn over every yield point (eliot source "
+            "lines, inside write, between write and flush, after flush), durable state = OS cache (+ torn prefix), "
+            "oracle on the frozen disk and on Parser output",
+            "Seeded exploration of (program, schedule, crash point) with up to 8 crash points per run; a crash is the "
+            "observation of the simulated disk at that instant; acknowledged = the logging call had returned.",
+            "Trusted: SimFile's two-level (user buffer / OS cache) model of process death; A1. No fsync / power loss.",
+            "DESIGN.md 3/C11"),
+    "C12": ("deterministic simulation: exact reference model over seeded histories of log/add/remove/global-field "
+            "operations; seeded interleavings (line pre-emption in _output.py) of logging threads with the first "
+            "add_destinations",
+            "Seeded exploration; sequential histories are checked for exact per-destination delivery sequences, "
+            "the concurrent hand-over for no loss, no duplication, per-thread order.",
+            "Trusted: the 40-line buffering/registration model, Tap recording, scheduler.",
+            "DESIGN.md 3/C12"),
+    "C16": ("deterministic simulation over schedules: 2-4 baton-passed threads on one MemoryLogger / one "
+            "FileDestination, pre-empted at every line of _output.py and every lock operation; interval-based "
+            "history oracle",
+            "Seeded exploration of interleavings of write/validate/serialize/flush_tracebacks/reset and of concurrent "
+            "file writes; invoke/return stamps from the global event sequence decide what must / may be recorded.",
+            "Trusted: scheduler, SimLock (logical blocking), SimFile with A1. C code is atomic (GIL).",
+            "DESIGN.md 3/C16"),
 }
 
 NOT_YET = "check not built yet in this commit (planned, see DESIGN.md section 3)"
